@@ -64,7 +64,7 @@ COr(a, b) == Cnd("or", << >>, << >>, Never, "", 0, FALSE, <<a, b>>)
 (***************************************************************************)
 IsNumeric(o) == o.c \in {"int", "bool", "float"}
 NumKey(o) == CASE o.c = "bool" -> (IF o.v = "True" THEN "1" ELSE "0")
-               [] o.c = "float" -> (IF o.v = "0.0" THEN "0" ELSE o.v)
+               [] o.c = "float" -> (IF o.v = "0.0" THEN "0" ELSE IF o.v = "1.0" THEN "1" ELSE o.v)
                [] OTHER -> o.v
 \* a == b where b is a scalar literal (numbers compare by value across int / bool / float)
 PyEq(a, b) == IF IsNumeric(a) /\ IsNumeric(b) THEN NumKey(a) = NumKey(b) ELSE a = b
